@@ -102,6 +102,8 @@ struct Gen<'a> {
     lit_special: bool,
     allow_safe: bool,
     allow_cuts: bool,
+    /// also use built-ins outside Model/WorldC01.v (such programs are checked by the oracle only)
+    wide: bool,
     ext: &'static str,
     incs: Vec<(String, String)>,
     comps: Vec<CompDef>,
@@ -174,6 +176,30 @@ impl<'a> Gen<'a> {
 
     /// Ways to use a captured (safe) string variable.
     fn use_capt(&mut self, v: &str) -> String {
+        if self.wide && self.rng.chance(1, 2) {
+            self.tag("wide-filters");
+            let e = match self.rng.below(14) {
+                0 => format!("{v} | replace(from=\"L\", to=p)"),
+                1 => format!("{v} | reverse"),
+                2 => format!("{v} | trim"),
+                3 => format!("[{v}, p] | join(sep=p)"),
+                4 => format!("{v} | split(pat=\"L\") | join(sep=p)"),
+                5 => format!("{v} | truncate(length=3, end=p)"),
+                6 => format!("{v} | title"),
+                7 => format!("{v} | capitalize"),
+                8 => format!("{v} | lower"),
+                9 => format!("[{v}, p] | first ~ p"),
+                10 => format!("[p, {v}] | last ~ p"),
+                11 => format!("({v} ~ p) | trim_start(pat=\"[\")"),
+                12 => format!("{v} | str ~ p"),
+                _ => format!("[[{v}, p], [p]] | sort | first | join(sep=\"\")"),
+            };
+            return format!("{{{{ {e} }}}}");
+        }
+        if self.rng.chance(1, 8) {
+            self.tag("concat-captured");
+            return if self.rng.chance(1, 2) { format!("{{{{ {v} ~ p }}}}") } else { format!("{{{{ p ~ {v} }}}}") };
+        }
         let c = self.rng.below(if self.allow_cuts { 15 } else { 11 });
         match c {
             0 | 1 => format!("{{{{ {v} }}}}"),
@@ -428,6 +454,7 @@ fn gen_prog(rng: &mut Rng, k: usize, ext: &'static str, allow_safe: bool) -> Pro
         lit_special,
         allow_safe,
         allow_cuts: !lit_special,
+        wide: k % 6 == 5,
         ext,
         incs: vec![],
         comps: vec![],
